@@ -493,7 +493,7 @@ func init() {
 		ruleScanFromFirstFile(r)
 		ruleIterateAll(r)
 		// the re-bucketed index is written and read with the ordinary index code
-		r.support([]string{"layout", "pos-codec", "splice", "config-wiring", "rescan-applies-all", "deleted-check", "tail-recovery", "meta-atomic", "header-persist", "pool-flush-complete", "movefiles-order", "error-wrap", "index-open-limit", "open-length", "pos-width", "header-preserved", "cancel-not-completion", "completion", "limit-component", "iter-errors", "errors-not-dropped", "fncb-summary", "flush-error-returned", "close-reports-errors", "record-readers", "scan-ends-at-eof"})
+		r.support([]string{"layout", "pos-codec", "splice", "config-wiring", "rescan-applies-all", "deleted-check", "tail-recovery", "meta-atomic", "header-persist", "pool-flush-complete", "movefiles-order", "error-wrap", "index-open-limit", "open-length", "pos-width", "header-preserved", "cancel-not-completion", "completion", "limit-component", "iter-errors", "errors-not-dropped", "fncb-summary", "flush-error-returned", "close-reports-errors", "record-readers", "scan-ends-at-eof", "open-defaults"})
 	},
 		"Decides structural necessary conditions of 're-bucketing keeps contents; mismatching file sizes are refused', not equality of contents for all (old,new) pairs: translateIndex starts only on the errors.As(ErrIndexWrongBitSize) edge of index.Open's error and the index is reopened after it; between reading the header and refusing with ErrIndexWrongBitSize/ErrIndexWrongFileSize/ErrPrimaryWrongFileSize no call that may (transitively) modify files is made, and the refusal sits on the header-value != requested edge; in translateIndex the old files are displaced only after both indexes closed successfully, the new ones installed after that, the displaced copy deleted only after a successful install; every record the old iterator returns reaches newIndex.Put with the key read from the primary at the record's location and the location unchanged. Not covered: the crash clause (the two MoveFiles are not atomic — observation O-3), contents equality.",
 		"file-effect summaries are computed over the module only (a table of os/bufio primitives); everything else outside the module is assumed not to modify store files")
